@@ -1,7 +1,9 @@
 """helpers shared by c01.py and c02.py: fast reading of TLC dumps with large numeric tables, exact tight-binding systems,
 the self-check of the Z[zeta12] library"""
 import re
+import time
 from collections import defaultdict
+from concurrent.futures import ThreadPoolExecutor
 
 import numpy as np
 
@@ -13,16 +15,22 @@ TOL = 1e-9
 
 
 def _fast_value(text):
-    """TLC value consisting only of integers, tuples and functions  ->  Python (tuples, dicts) through the Python parser"""
+    """TLC value built from integers, booleans, strings, tuples, sets, records and functions -> Python (tuples, frozensets, dicts)
+    through the Python parser (much faster than the character-level parser for large tables)"""
     t = text.strip()
-    if re.search(r"[^0-9\s,<>():@\-]", t):
-        raise ValueError("not a purely numeric value")
-    t = t.replace("<<>>", " E ")
+    if "\x01" in t or "\x02" in t or "\x03" in t or "'" in t:
+        raise ValueError("unsupported characters")
+    t = t.replace("<<>>", "\x03")
+    t = t.replace("{", "\x01").replace("}", "\x02")
     t = t.replace("(", "{").replace(")", "}")
-    t = t.replace(":>", ":").replace("@@", ",")
+    t = t.replace("[", "dict(").replace("]", ")")
+    t = t.replace("\x01", "frozenset([").replace("\x02", "])")
+    t = t.replace("|->", "=").replace(":>", ":").replace("@@", ",")
     t = t.replace("<<", "(").replace(">>", ",)")
-    t = t.replace(" E ", "()")
-    return eval(t, {"__builtins__": {}}, {})
+    t = t.replace("\x03", "()")
+    t = re.sub(r"\bTRUE\b", "True", t)
+    t = re.sub(r"\bFALSE\b", "False", t)
+    return eval(t, {"__builtins__": {}}, {"frozenset": frozenset, "dict": dict, "True": True, "False": False})
 
 
 def fast_dump_states(st, fast_vars=()):
@@ -47,7 +55,7 @@ def fast_dump_states(st, fast_vars=()):
                 try:
                     s[name] = _fast_value(val)
                     continue
-                except (ValueError, SyntaxError):
+                except (ValueError, SyntaxError, TypeError, NameError):
                     pass
             s[name] = tlaparse.parse_value(val)
         yield s
@@ -104,3 +112,22 @@ def cyclo_library_check(rep):
     if n != st["distinct"] or worst > 1e-12:
         raise MachineryError(f"Cyclo12 library binding failed: {n} states, deviation {worst}")
     rep.part("cyclo12_library", states=n, max_deviation_from_complex_arithmetic=worst)
+
+
+def validate_parallel(module, recs, name, nchunks, timeout=3000):
+    """TLC validation of the records in several JVMs at once (the clauses recompute the exact values per record)"""
+    if not recs:
+        return dict(distinct=0, generated=0, wall_s=0.0, mode="record-validation"), {}
+    size = max(1, -(-len(recs) // nchunks))
+    parts = [(k, recs[k:k + size]) for k in range(0, len(recs), size)]
+    t0 = time.time()
+    with ThreadPoolExecutor(max_workers=len(parts)) as ex:
+        res = list(ex.map(lambda p: ftable.validate_records(module, ftable.REC_CFG, p[1], f"{name}_{p[0]}", timeout=timeout), parts))
+    tot = dict(distinct=0, generated=0, wall_s=round(time.time() - t0, 2), mode="record-validation")
+    bad = {}
+    for (k, _), (st, b) in zip(parts, res):
+        tot["distinct"] += st["distinct"]
+        tot["generated"] += st["generated"]
+        for i, cl in b.items():
+            bad[k + i] = cl
+    return tot, bad
